@@ -129,6 +129,17 @@ fn twin_runs(wid: &str, tier: Tier) -> Option<u64> {
     None
 }
 
+/// Where replay files go (HV_REPLAY_DIR overrides: used when a deliberately broken copy of
+/// /repo is being evaluated, so that nothing it produces lands among the real artefacts).
+fn replay_dir() -> String {
+    std::env::var("HV_REPLAY_DIR").unwrap_or_else(|_| format!("{}/replays", VERIF_DIR))
+}
+
+/// Where evidence files go (HV_EVIDENCE_DIR overrides, same purpose).
+fn evidence_dir() -> String {
+    std::env::var("HV_EVIDENCE_DIR").unwrap_or_else(|_| format!("{}/evidence", VERIF_DIR))
+}
+
 fn self_exe() -> String {
     std::env::current_exe().map(|p| p.to_string_lossy().to_string()).unwrap_or_else(|_| format!("{}/target/release/hv", VERIF_DIR))
 }
@@ -451,7 +462,7 @@ pub fn check(id: &str, tier: Tier, seed: u64, jobs: usize, max_runs: Option<u64>
     let mut violation_lines: Vec<String> = Vec::new();
     let mut known_lines: Vec<String> = Vec::new();
     let mut reported = Vec::new();
-    let _ = std::fs::create_dir_all(format!("{}/replays", VERIF_DIR));
+    let _ = std::fs::create_dir_all(replay_dir());
     let budget_per_group = if groups.len() > 6 { 120 } else { 300 };
     for ((rule, sig), fs) in &groups {
         let first = fs[0];
@@ -479,7 +490,7 @@ pub fn check(id: &str, tier: Tier, seed: u64, jobs: usize, max_runs: Option<u64>
         }
         let detail = min_res.violations.iter().find(|v| v.rule == *rule && v.sig == *sig).map(|v| v.detail.clone()).unwrap_or_default();
         let h = hash_json(&json!([rule, sig]));
-        let path = format!("{}/replays/{}-{:016x}.json", VERIF_DIR, id, h);
+        let path = format!("{}/{}-{:016x}.json", replay_dir(), id, h);
         let replay = json!({
             "property": id, "engine_id": first.wid, "rule": rule, "sig": sig, "detail": detail,
             "seed": seed, "tier": tier.name(), "first_idx": first.idx, "runs_failing": fs.len(),
@@ -542,8 +553,8 @@ pub fn check(id: &str, tier: Tier, seed: u64, jobs: usize, max_runs: Option<u64>
         "wall_s": wall,
         "violations": violation_lines.len(),
     });
-    let _ = std::fs::create_dir_all(format!("{}/evidence", VERIF_DIR));
-    let epath = format!("{}/evidence/{}.json", VERIF_DIR, id);
+    let _ = std::fs::create_dir_all(evidence_dir());
+    let epath = format!("{}/{}.json", evidence_dir(), id);
     if let Err(e) = std::fs::write(&epath, serde_json::to_string_pretty(&evidence).unwrap()) {
         println!("HARNESS-ERROR: cannot write evidence: {}", e);
         harness_problem = true;
